@@ -313,6 +313,52 @@ func OddSpecs(full bool) []string {
 		add("A:\n    Ep:\n        B <- X (" + q + ")\n")
 		add("A:\n    Ep:\n        " + q + ":\n            x\n")
 	}
+	// view bodies: transform headers x all ordered pairs of body statements (nested transforms typed and
+	// untyped, plain and transform-valued assignments and lets, table-of, wildcards)
+	{
+		heads := []string{"p -> (:", "p -> (x:", "p -> <T> (:", "p -> <set of T> (x:", "p -> <int> (:", "q -> <sequence of T> (e:"}
+		stmts := []string{
+			"a = 1",
+			"a = p",
+			"let l = 1",
+			"let l = p -> (:\n    z = 1\n)",
+			"let l = p -> <T> (:\n    f = 1\n)",
+			"b = p -> (:\n    x = 1\n)",
+			"b = p -> <T> (:\n    f = 1\n)",
+			"b = p -> <set of T> (y:\n    f = y\n)",
+			"b = p -> (:\n    c = p -> <T> (:\n        f = 1\n    )\n)",
+			"b = p -> (:\n    c = p -> (:\n        d = 1\n    )\n)",
+			"b = q -> (e:\n    let m = e\n    g = m\n)",
+			"table of t = q -> <T> (:\n    f = 1\n)",
+			"table of t = q -> (:\n    f = 1\n)",
+			"F(p).*",
+			"*",
+			"b = p -> <Missing.T> (:\n    f = 1\n)",
+			"b = helper(p)",
+			"b = helper(p) -> (:\n    x = .f\n)",
+		}
+		mk := func(head string, body ...string) string {
+			var b strings.Builder
+			b.WriteString("A:\n    !type T:\n        f <: int\n    !view helper(n <: int) -> T:\n        n -> <T> (:\n            f = n\n        )\n    !view v(p <: int, q <: set of T) -> T:\n        " + head + "\n")
+			for _, st := range body {
+				b.WriteString(indent(st, 3) + "\n")
+			}
+			b.WriteString("        )\n")
+			return b.String()
+		}
+		for hi, h := range heads {
+			for i, s1 := range stmts {
+				add(mk(h, s1))
+				if hi < 2 || full {
+					for j, s2 := range stmts {
+						if i != j {
+							add(mk(h, s1, s2))
+						}
+					}
+				}
+			}
+		}
+	}
 	return dedup(out)
 }
 
